@@ -33,7 +33,7 @@ def run(tier, seed, replay=None):
     if not g.ok:
         raise Inconclusive("Codec_Gen failed on the model: %s\n%s" % (g.invariant, g.out[-2500:]))
     recs = os.path.join(sc, "c13.ndjson")
-    vlib.vh(["c13", "-cases", cases, "-out", recs, "-rand", 60 if quick else 1500, "-seed", seed], timeout=1700)
+    vlib.vh(["c13", "-cases", cases, "-out", recs, "-rand", 60 if quick else 12000, "-seed", seed], timeout=1700)
     bad = os.path.join(sc, "c13bad.ndjson")
     t = vlib.tlc("Codec_Trace", "Codec_Trace.cfg", env={"ZOO": zoo, "RECS": recs, "OUT": bad}, workers=1, timeout=1700, heap="8g")
     if t.invariant == "Complete":
@@ -62,7 +62,7 @@ def run(tier, seed, replay=None):
                 "Codec_Trace) plus %d seeded random values per numeric / text / bytes / time column in every form; every case runs "
                 "UnbuildStruct -> source form -> BuildStruct, the own-value filters (Go value, SQL value) against the row and "
                 "against a row with another value, and FilterToProto -> FilterFromProto; distinct = different (column, value, form)"
-                % (g.distinct, 60 if quick else 1500),
+                % (g.distinct, 60 if quick else 12000),
         "samples": [{k: r[k] for k in ("col", "val", "form", "decode", "equal", "owngo", "ownsql", "proto", "protosame")}
                     for r in rows[:: max(1, len(rows) // 5)][:5]],
         "matrix_cases": g.distinct, "proto_outcomes": proto,
